@@ -119,6 +119,20 @@ Theorem C15_render_step_plain S n c v :
 Proof. exact (render_step_plain S n c v). Qed.
 Print Assumptions C15_render_step_plain.
 
+(* extends, as repaired (F61, F62): a style extending an undefined style is decimal completed by... its own
+   descriptors completed by those of decimal; resolving a name adds only that name to the fallback list *)
+Theorem C15_extends_unknown_is_extends_decimal S n c t fx d :
+  lookup n S = Some c -> c_system c = Some (mkSys true t fx) -> lookup t S = None ->
+  lookup "decimal" S = Some d -> fst (fst (sys_of d)) = false ->
+  resolve S (CName n) None = (ResSome (merge (set_system c (c_system d)) d), None).
+Proof. exact (extends_unknown_is_extends_decimal S n c t fx d). Qed.
+Print Assumptions C15_extends_unknown_is_extends_decimal.
+
+Theorem C15_resolve_adds_only_the_name S cn l r p :
+  resolve S cn (Some l) = (r, p) -> p = Some l \/ p = Some (l ++ [cn]).
+Proof. exact (resolve_adds_only_the_name S cn l r p). Qed.
+Print Assumptions C15_resolve_adds_only_the_name.
+
 (* negative values: |v| represented, padded, between the two negative symbols *)
 Theorem C15_negative_wrapping c sys fx prev v t :
   check_ranges (ranges_of c sys) v = RgIn -> v < 0 -> uses_negative sys = true ->
